@@ -17,8 +17,21 @@
   per hop or keyed by (source, id) with per-hop disambiguation of responses) → known finding.
 -/
 import MM.Lemmas.C39
+import MM.Gen.LockC39
 
 namespace MM.C39
+
+
+/-! ### atomic-step tie (tools/lockshape.go over internal/agent/agent.go): every access to
+    `pendingControl`, `forwardedControl` and `nextControlID` in the three control functions is made under
+    `controlMu`, and `handleControlResponse` looks up and deletes in ONE critical section — the model's
+    `issue`/`onReq`/`onResp` are atomic functions. -/
+theorem C39_lock_control_maps :
+    (Gen.LockC39.accesses.all (fun a => a.2.2.2 == "W")) = true ∧
+    Gen.LockC39.acquisitions.lookup "Agent.handleControlResponse" = some 1 ∧
+    (Gen.LockC39.accesses.any (fun a => a.1 == "Agent.handleControlRequest" && a.2.1 == "forwardedControl" && a.2.2.1)) = true ∧
+    (Gen.LockC39.accesses.any (fun a => a.1 == "Agent.SendControlRequestWithData" && a.2.1 == "pendingControl" && a.2.2.1)) = true := by
+  decide
 
 /-! ### the ideal agent: remembers the origin of every live request -/
 
